@@ -218,3 +218,35 @@ def running_extrema(prog, fn):
             if cls and neg:
                 cls = {"plus": "minus", "minus": "plus", "tiny": "tiny"}[cls]
         yield X, kind, cls, node, upd
+
+
+SIZE_OF_MESH = re.compile(r"(get_node_lst\(\)|node_lst_|get_face_lst\(\)|face_lst_)\.size\(\)")
+
+
+def stale_size_after_compaction(prog, fn):
+    """A local initialised from the size of a cell's node/face list that is still used after a call that may compact that list
+    (cell::rebase, directly or through callees): the stored size no longer describes the list.  Yields (var, compacting call,
+    later use)."""
+    if not isinstance(fn.get("body"), dict):
+        return
+    reb = [f["key"] for f in prog.fns("cell::rebase", required=False)]
+    if not reb:
+        return
+    cache = prog.__dict__.setdefault("_may_rebase", {})
+
+    def may_rebase(key):
+        if key not in cache:
+            cache[key] = bool(set(reb) & prog.closure([key]))
+        return cache[key]
+    fi = prog.index(fn)
+    for v in fi.nodes:
+        if v.get("k") != "Var" or not isinstance(v.get("init"), dict):
+            continue
+        if not SIZE_OF_MESH.search(render(v["init"]).replace(" ", "")):
+            continue
+        calls = [c for c in fi.nodes if is_call(c) and fi.order[id(c)] > fi.order[id(v)] and any(may_rebase(k) for k in prog.call_targets(c))]
+        for c in calls:
+            uses = [u for u in fi.nodes if u.get("k") == "DeclRefExpr" and isinstance(u.get("ref"), dict) and u["ref"].get("did") == v.get("did") and fi.order[id(u)] > fi.order[id(c)]]
+            if uses:
+                yield v, c, uses[0]
+                break
